@@ -13,7 +13,8 @@ Proof.
   - eapply stepS_main_events; eauto.
   - eapply stepS_main_events; eauto.
   - eapply stepS_main_events; eauto 6.
-  - eapply stepS_main_events; eauto 6.
+  - eapply stepS_main_events; eauto 7.
+  - eapply stepS_main_events; eauto 7.
   - eapply stepS_complete; eauto.
   - eapply stepS_done; eauto.
   - (* EExtDrop: only the registry cell changes *)
